@@ -22,6 +22,16 @@
   * `panoc_on_vtable_satisfies_inner_contract_lazy` — the same for the *raw* vtable slots
     (`vtProblemRaw`, no completion off the domain, no workspace model) with lazy gradient
     evaluation (`eager_gradient_eval = false`, the default);
+  * **`panoc_on_raw_vtable_satisfies_inner_contract`** (and `resolve_raw_meets_oracleContractGrad`,
+    `alm_panoc_on_raw_vtable_certifies_kkt`,
+    `panoc_{noop,lbfgs,slbfgs,anderson}_on_raw_vtable_inner_contract`) — the raw slots with
+    `eager_gradient_eval` **arbitrary and the workspace content of `eval_ψ_grad_ψ` arbitrary** (of
+    size `m`): the consistency of the oracles is needed on well-sized arguments only
+    (`Proofs/PanocInvOn.OracleLawOn`), and of it only the gradient half (`GradLawOn`,
+    `Props/C01_Alm.OracleContractGrad` / `panoc_satisfies_inner_contract_grad`), which `Sound` gives
+    outright — no completion off the domain, no workspace model;
+    `resolve_raw_meets_oracleContractOn`: the full relativised law for a workspace that holds `ŷ` on
+    the domain (`OracleContractOn`);
   * `panoc_{noop,lbfgs,slbfgs,anderson}_on_vtable_inner_contract` — the closed instances of
     `Props/DirectionsLoop.lean` (each shipped direction provider, `DirSized` proved) over the vtable;
   * `defaults_meet_oracleContract` — a problem class supplying only the required functions: no
@@ -44,6 +54,17 @@
      `x.length ≠ n` by the two separate evaluations; on `x.length = n` it *is* the vtable slot
      (`vtProblemW_psiGradPsi_sized`).  PANOC never evaluates an oracle off the domain
      (`Proofs/PanocSized.run_sized`); the lazy theorem is about the uncompleted slots.
+
+  **Both closed since** (`Proofs/PanocInvOn`, `Proofs/C01PanocOn`, `Props/C01_Alm`): (2) `OracleLawOn n`
+  (the law at `x.length = n` only) suffices for the PANOC theorems — the loop invariants carry the size
+  invariant along (`panoc_satisfies_inner_contract_on`); (1) of that law only the gradient half is
+  needed — PANOC with `eager_gradient_eval` treats `ŷx̂` as workspace and re-evaluates `eval_ψ` where it
+  reads `ŷ` (`panoc_satisfies_inner_contract_grad`).  `panoc_on_raw_vtable_satisfies_inner_contract`
+  is the inner contract for the uncompleted slots in either mode with `W` arbitrary of size `m`.
+  `vtProblemW` / `vtProblem` and their theorems are kept (corollaries now: `OracleContract.on`).  The
+  closed example `exP2` is a vtable whose raw slots violate the unrestricted `OracleLaw` (junk off the
+  domain) and, with junk in `work_m`, even `OracleLawOn 1`, and over which PANOC in eager mode provably
+  satisfies the inner contract and converges to the same point.
 
   Real-number semantics (ordered field), as everywhere in C01 / C04.
 -/
@@ -408,9 +429,20 @@ theorem OracleContract.toLazy {pb : ProblemCF α} {n m : Nat} {Pf : Vec α → V
     (h : OracleContract pb n m Pf) : OracleContractLazy pb n m Pf :=
   ⟨h.yhat, h.gradL, h.prox, h.sized⟩
 
+/-- the lazy contract is `OracleContractOn` at `eager_gradient_eval = false` … -/
+theorem OracleContractLazy.on {pb : ProblemCF α} {n m : Nat} {Pf : Vec α → Vec α → Panoc.Problem α}
+    (h : OracleContractLazy pb n m Pf) {e : Bool} (he : e = false) : OracleContractOn pb n m e Pf :=
+  ⟨h.yhat, h.gradL, h.prox, h.sized, fun ht => by rw [he] at ht; cases ht⟩
+
+/-- … and conversely -/
+theorem OracleContractOn.toLazy {pb : ProblemCF α} {n m : Nat} {e : Bool}
+    {Pf : Vec α → Vec α → Panoc.Problem α} (h : OracleContractOn pb n m e Pf) :
+    OracleContractLazy pb n m Pf :=
+  ⟨h.yhat, h.gradL, h.prox, h.sized⟩
+
 /-- `panoc_satisfies_inner_contract` for `eager_gradient_eval = false` (the default) under
-    `OracleContractLazy`: the proof of `Props/C01_Alm` with `YhatMode` discharged by the parameter
-    instead of `OracleContract.law`. -/
+    `OracleContractLazy`: `Props/C01_Alm.panoc_satisfies_inner_contract_on` with the mode discharged
+    by the parameter instead of a consistency law. -/
 theorem panoc_satisfies_inner_contract_lazy (pb : ProblemCF α) (n m : Nat)
     (Pf : Vec α → Vec α → Panoc.Problem α) (hO : OracleContractLazy pb n m Pf)
     (dir : Direction Dd α) (d0 : Dd) (hD : DirSized n dir d0) (pr : Panoc.Params α) (hp : ParamsOK pr)
@@ -419,117 +451,9 @@ theorem panoc_satisfies_inner_contract_lazy (pb : ProblemCF α) (n m : Nat)
     (hcrit : pr.stopCrit = .ApproxKKT)
     (stop : InnerCall α → Nat → Bool) (hmono : ∀ c, StopMono (stop c))
     (oot clock almStop : InnerCall α → Bool) (gV : Vec α) (gS iS : α) :
-    InnerContract pb n m (panocInner Pf dir d0 pr stop oot clock almStop gV gS iS) := by
-  have hfuel : ∀ c, (panocRun Pf dir d0 pr stop oot gV gS iS c).fuelOut = false := fun c =>
-    run_fuel_suffices (Pf c.y c.sigma) dir d0 (panocParams pr c) (stop c) (hmono c) nf K
-      (fuelOK_panocParams hF c) (oot c) c.x c.y c.sigma c.errBuf gV gS iS
-  have hsize : ∀ c, WFCall n m c → OutSized n m (panocRun Pf dir d0 pr stop oot gV gS iS c) := fun c hwf =>
-    run_sized (hO.sized c.y c.sigma hwf.y hwf.sigma) dir d0 hD (panocParams pr c) (stop c) (oot c)
-      c.x c.y c.sigma c.errBuf gV gS iS hwf.x hwf.y hwf.sigma hwf.errBuf (hfuel c)
-  -- what a converged run looks like
-  have key : ∀ c, WFCall n m c → (panocRun Pf dir d0 pr stop oot gV gS iS c).stats.status = .Converged →
-      ∃ it : Iterate α, 0 < it.gamma ∧
-        it.xhat = vadd it.x (projStepVO it.gamma it.x it.gradPsi pb.C) ∧
-        it.p = projStepVO it.gamma it.x it.gradPsi pb.C ∧
-        it.yhat = yhatCF pb it.xhat c.y c.sigma ∧
-        it.gradPsiHat = pb.gradL it.xhat it.yhat ∧
-        (panocRun Pf dir d0 pr stop oot gV gS iS c).x = it.xhat ∧
-        (panocRun Pf dir d0 pr stop oot gV gS iS c).y = it.yhat ∧
-        (panocRun Pf dir d0 pr stop oot gV gS iS c).stats.eps =
-          stopCrit_ApproxKKT (fun _ v _ => (v, v)) it.p it.gamma it.x it.xhat it.yhat it.gradPsi
-            it.gradPsiHat ∧
-        (0 < c.errBuf.length → (panocRun Pf dir d0 pr stop oot gV gS iS c).errz =
-          vdiv (vsub it.yhat c.y) c.sigma) ∧
-        (0 < c.opts.tolerance →
-          (panocRun Pf dir d0 pr stop oot gV gS iS c).stats.eps ≤ c.opts.tolerance) := by
-    intro c hwf hc
-    have hf := hfuel c
-    have hPs := hO.sized c.y c.sigma hwf.y hwf.sigma
-    unfold panocRun at hc hf ⊢
-    generalize hpr' : panocParams pr c = pr' at hc hf ⊢
-    have hp' : ParamsOK pr' := by subst hpr'; exact ⟨hp.minLs, hp.lgf, hp.lmin, hp.lmax⟩
-    have hcrit' : pr'.stopCrit = .ApproxKKT := by subst hpr'; exact hcrit
-    have hmode : YhatMode (Pf c.y c.sigma) pr' := Or.inl (by subst hpr'; exact hlazy)
-    have htol' : pr'.tolerance = c.opts.tolerance := by subst hpr'; rfl
-    rcases run_exit_inv (Pf c.y c.sigma) hPs dir d0 hD pr' hp' (stop c) (oot c) c.x c.y c.sigma c.errBuf
-      gV gS iS hwf.x hf with hnf | ⟨s', hinv, hrun⟩
-    · rw [hnf] at hc; cases hc
-    · set P := Pf c.y c.sigma with hP
-      set sh := (headStep P pr' (stop c) (oot c) s').1 with hsh
-      have hgood := (headStep_good P pr' (stop c) (oot c) s' hinv.good).1
-      have hgh := headStep_gh P pr' (stop c) (oot c) s' hinv.good hinv.grad
-      have hloop := headStep_inv False True P pr' (stop c) (oot c) s' hinv.loop
-      have hsz : Sized n m sh.curr := headStep_sized hPs pr' (stop c) (oot c) s' hinv.sized
-      have hst := headStep_status P pr' (stop c) (oot c) s'
-      rw [hrun] at hc ⊢
-      have hfields := exitBlock_fields P pr' sh (headStep P pr' (stop c) (oot c) s').2.1
-        (headStep P pr' (stop c) (oot c) s').2.2 c.x c.y c.sigma c.errBuf
-      rw [hfields.1] at hc
-      have hok := exitBlock_ok P pr' sh (headStep P pr' (stop c) (oot c) s').2.1
-        (headStep P pr' (stop c) (oot c) s').2.2 c.x c.y c.sigma c.errBuf hgood
-        (headStep_yhatValid P pr' (stop c) (oot c) s' hinv.good)
-      have hw : (exitBlock P pr' sh (headStep P pr' (stop c) (oot c) s').2.1
-          (headStep P pr' (stop c) (oot c) s').2.2 c.x c.y c.sigma c.errBuf).wrote = true := by
-        rw [hok.2.1, hc]; rfl
-      obtain ⟨it, _, hx, hxh, hpp, hg, hgr, hgrh, _, hsame, hwr⟩ := exitBlock_final P pr' sh
-        (headStep P pr' (stop c) (oot c) s').2.1 (headStep P pr' (stop c) (oot c) s').2.2
-        c.x c.y c.sigma c.errBuf
-      -- the iterate written back agrees with the head's one in everything the contract reads
-      have hyy : sh.curr.yhat = (P.psi sh.curr.xhat).2 := hgood.2 hmode
-      have hity : it.yhat = sh.curr.yhat := by
-        have h1 := (hok.1.1 hw).2.1
-        rw [(hwr hw).1, (hwr hw).2, hxh] at h1
-        rw [h1, hyy]
-      have hprox := hO.prox c.y c.sigma sh.curr.gamma sh.curr.x sh.curr.gradPsi hwf.y hwf.sigma hsz.x hsz.g
-      have hyh : sh.curr.yhat = yhatCF pb sh.curr.xhat c.y c.sigma := by
-        rw [hyy, hO.yhat c.y c.sigma _ hwf.y hwf.sigma hsz.xhat]
-      have hflag : sh.curr.haveGradHat = true := hgh.2 (by rw [hcrit']; rfl)
-      have hgL : sh.curr.gradPsiHat = pb.gradL sh.curr.xhat sh.curr.yhat := by
-        rw [hgh.1 hmode hflag, hO.gradL c.y c.sigma _ _ hwf.y hwf.sigma hsz.xhat hsz.yhat]
-      have heps : (headStep P pr' (stop c) (oot c) s').2.1 =
-          stopCrit_ApproxKKT (fun _ v _ => (v, v)) sh.curr.p sh.curr.gamma sh.curr.x sh.curr.xhat
-            sh.curr.yhat sh.curr.gradPsi sh.curr.gradPsiHat := by
-        rw [hst.1]; unfold epsOf; rw [hcrit']; rfl
-      refine ⟨sh.curr, hloop.gok.1, ?_, ?_, hyh, hgL, ?_, ?_, ?_, ?_, ?_⟩
-      · rw [hgood.1.2.1]; exact hprox.1
-      · rw [hgood.1.2.2]; exact hprox.2
-      · rw [(hwr hw).1, hxh]
-      · rw [(hwr hw).2, hity]
-      · rw [hfields.2.1]; exact heps
-      · intro hl
-        have := (hok.1.1 hw).2.2
-        rw [if_pos hl, (hwr hw).2, hity] at this
-        exact this
-      · intro ht
-        rw [hfields.2.1]
-        have hconvd : (headStep P pr' (stop c) (oot c) s').2.2 = .Converged := hc
-        rw [hst.2] at hconvd
-        unfold statusOf at hconvd
-        have := (Alpaqa.Props.C06.converged_iff _ _ _ _ _ _ _ _).mp hconvd
-        unfold Alpaqa.Props.C06.effTol at this
-        rw [htol', if_pos ht] at this
-        exact this
-  refine ⟨?_, ?_, fun c hwf => (hsize c hwf).x, fun c hwf => (hsize c hwf).y,
-    fun c hwf => (hsize c hwf).errz⟩
-  · intro c hwf hc
-    obtain ⟨it, hγ, hxh, hpp, hyh, hgL, hx, hy, heps, herr, _⟩ := key c hwf hc
-    refine ⟨it.gamma, it.x, it.gradPsi, hγ, ?_, ?_, ?_, ?_⟩
-    · show (panocRun Pf dir d0 pr stop oot gV gS iS c).x = _
-      rw [hx]; exact hxh
-    · show (panocRun Pf dir d0 pr stop oot gV gS iS c).stats.eps = stopCrit_ApproxKKT _ _ _ _
-        (panocRun Pf dir d0 pr stop oot gV gS iS c).x (panocRun Pf dir d0 pr stop oot gV gS iS c).y _
-        (pb.gradL (panocRun Pf dir d0 pr stop oot gV gS iS c).x (panocRun Pf dir d0 pr stop oot gV gS iS c).y)
-      rw [heps, hx, hy, ← hgL, ← hpp]
-    · show (panocRun Pf dir d0 pr stop oot gV gS iS c).y =
-        yhatCF pb (panocRun Pf dir d0 pr stop oot gV gS iS c).x c.y c.sigma
-      rw [hy, hx]; exact hyh
-    · intro hl
-      show (panocRun Pf dir d0 pr stop oot gV gS iS c).errz =
-        vdiv (vsub (panocRun Pf dir d0 pr stop oot gV gS iS c).y c.y) c.sigma
-      rw [herr hl, hy]
-  · intro c hwf ht hc
-    obtain ⟨_, _, _, _, _, _, _, _, _, _, htol⟩ := key c hwf hc
-    exact htol ht
+    InnerContract pb n m (panocInner Pf dir d0 pr stop oot clock almStop gV gS iS) :=
+  panoc_satisfies_inner_contract_on pb n m Pf pr (hO.on hlazy) dir d0 hD hp nf K hF hcrit stop hmono oot
+    clock almStop gV gS iS
 
 /-- **The raw slots of every sound vtable meet the lazy contract** — `vtProblemRaw`: nothing completed
     off the domain; the workspace content `W` of `eval_ψ_grad_ψ` is arbitrary of size `m`. -/
@@ -583,6 +507,122 @@ theorem panoc_on_vtable_satisfies_inner_contract_lazy (B : Basic α) (hB : WF B)
     (sound_vtable_meets_oracleContractLazy B hB C D hbox (resolve B P)
       (Alpaqa.Props.C04.resolve_correct B hB P hP) W w hw hWl)
     dir d0 hD pr hp hlazy nf K hF hcrit stop hmono oot clock almStop gV gS iS
+
+/-! ### Either mode over the raw slots: the law on well-sized arguments only, nothing about the workspace -/
+
+/-- **The raw slots of every sound vtable meet `OracleContractOn`** — `vtProblemRaw`: nothing is
+    completed off the domain (there is no guard on `x.length`).  About the workspace content `W` of
+    `eval_ψ_grad_ψ` (which the C04 vtable model does not contain):
+    * `hWl` — it has size `m` on well-sized arguments (`work_m` is an `m`-vector);
+    * `hW`  — **only if `eager_gradient_eval` is set**: on well-sized arguments it is the `ŷ` that the
+      vtable's own `eval_ψ` returns.  With lazy evaluation its content is arbitrary. -/
+theorem sound_vtable_raw_meets_oracleContractOn (B : Basic α) (hB : WF B) (C : BoxC α) (D : BoxD α)
+    (hbox : IsBoxProblem B C D) (vt : VTable α) (hvt : vt.Sound B)
+    (W : Vec α → Vec α → Vec α → Vec α) (w : Vec α) (hw : w.length = B.m) (eager : Bool)
+    (hWl : ∀ x y Sig, x.length = B.n → y.length = B.m → Sig.length = B.m → (W x y Sig).length = B.m)
+    (hW : eager = true → ∀ x y Sig, x.length = B.n → y.length = B.m → Sig.length = B.m →
+      W x y Sig = (vt.eval_psi x y Sig w).2) :
+    OracleContractOn (pbOf B C D) B.n B.m eager (vtProblemRaw vt C W w) := by
+  have hL := sound_vtable_meets_oracleContractLazy B hB C D hbox vt hvt W w hw hWl
+  refine ⟨hL.yhat, hL.gradL, hL.prox, hL.sized, ?_⟩
+  intro he y Sig hy hS x hx
+  exact ⟨hW he x y Sig hx hy hS, (sound_sized B hB C D hbox vt hvt w y Sig x hw hy hS hx).2.2.2.2⟩
+
+/-- **The raw slots of the constructed vtable `resolve B P` meet `OracleContractOn`, for every
+    provider mix** — the workspace hypothesis stated against the closed form `ŷ = yhatSpec` (C04),
+    demanded in eager mode only, on well-sized arguments only. -/
+theorem resolve_raw_meets_oracleContractOn (B : Basic α) (hB : WF B) (P : Provided α) (hP : P.Sound B)
+    (C : BoxC α) (D : BoxD α) (hbox : IsBoxProblem B C D)
+    (W : Vec α → Vec α → Vec α → Vec α) (w : Vec α) (hw : w.length = B.m) (eager : Bool)
+    (hWl : ∀ x y Sig, x.length = B.n → y.length = B.m → Sig.length = B.m → (W x y Sig).length = B.m)
+    (hW : eager = true → ∀ x y Sig, x.length = B.n → y.length = B.m → Sig.length = B.m →
+      W x y Sig = yhatSpec B.proj_diff_g (B.g x) y Sig) :
+    OracleContractOn (pbOf B C D) B.n B.m eager (vtProblemRaw (resolve B P) C W w) :=
+  sound_vtable_raw_meets_oracleContractOn B hB C D hbox (resolve B P)
+    (Alpaqa.Props.C04.resolve_correct B hB P hP) W w hw eager hWl (fun he x y Sig hx hy hS => by
+      rw [hW he x y Sig hx hy hS,
+        (Alpaqa.Props.C04.resolve_correct B hB P hP).psi x y Sig w ⟨hx, hy, Or.inr hS⟩ hw]
+      rfl)
+
+/-- **The raw slots of every sound vtable meet `OracleContractGrad`, whatever `eval_ψ_grad_ψ` leaves in
+    its workspace**: `W` is arbitrary of size `m` — in *either* mode.  The gradient half of the law
+    (`GradLawOn`) is a consequence of `Sound` alone (`eval_ψ_grad_ψ`'s gradient and `eval_grad_L ∘ eval_ψ`
+    are both the closed form `specGradPsi` on well-sized arguments). -/
+theorem sound_vtable_raw_meets_oracleContractGrad (B : Basic α) (hB : WF B) (C : BoxC α) (D : BoxD α)
+    (hbox : IsBoxProblem B C D) (vt : VTable α) (hvt : vt.Sound B)
+    (W : Vec α → Vec α → Vec α → Vec α) (w : Vec α) (hw : w.length = B.m) (eager : Bool)
+    (hWl : ∀ x y Sig, x.length = B.n → y.length = B.m → Sig.length = B.m → (W x y Sig).length = B.m) :
+    OracleContractGrad (pbOf B C D) B.n B.m eager (vtProblemRaw vt C W w) := by
+  have hL := sound_vtable_meets_oracleContractLazy B hB C D hbox vt hvt W w hw hWl
+  refine ⟨hL.yhat, hL.gradL, hL.prox, hL.sized, ?_⟩
+  intro _ y Sig hy hS x hx
+  exact (sound_sized B hB C D hbox vt hvt w y Sig x hw hy hS hx).2.2.2.2
+
+/-- … in particular those of the constructed vtable `resolve B P`, for every provider mix. -/
+theorem resolve_raw_meets_oracleContractGrad (B : Basic α) (hB : WF B) (P : Provided α) (hP : P.Sound B)
+    (C : BoxC α) (D : BoxD α) (hbox : IsBoxProblem B C D)
+    (W : Vec α → Vec α → Vec α → Vec α) (w : Vec α) (hw : w.length = B.m) (eager : Bool)
+    (hWl : ∀ x y Sig, x.length = B.n → y.length = B.m → Sig.length = B.m → (W x y Sig).length = B.m) :
+    OracleContractGrad (pbOf B C D) B.n B.m eager (vtProblemRaw (resolve B P) C W w) :=
+  sound_vtable_raw_meets_oracleContractGrad B hB C D hbox (resolve B P)
+    (Alpaqa.Props.C04.resolve_correct B hB P hP) W w hw eager hWl
+
+/-- **PANOC over the RAW slots of the constructed vtable satisfies ALM's inner-solver contract, for
+    every provider mix, with `eager_gradient_eval` arbitrary and the workspace content arbitrary.**
+    `vtProblemRaw (resolve B P) C W w` is the vtable as it is: `eval_ψ_grad_ψ` is the slot at *every*
+    argument (no guard, no completion off the domain), `W x y Σ` is whatever it leaves in `work_m`.
+    **The only thing assumed about `W` is its size** (`hWl`: `work_m` is an `m`-vector — in the C++ it
+    is the caller's buffer `ŷx̂(m)`, which the callee cannot resize).  In particular nothing is required
+    of a user-supplied `eval_ψ_grad_ψ` beyond C04's `Sound` (value and gradient equal the closed
+    forms on well-sized arguments): PANOC with `eager_gradient_eval` does not read `work_m` as `ŷ`
+    (`panoc_satisfies_inner_contract_grad`).  Nothing is assumed about any slot at arguments of the
+    wrong size.  Remaining hypotheses as in `panoc_on_vtable_satisfies_inner_contract`.
+    (`panoc_on_vtable_satisfies_inner_contract_lazy` is the special case `eager_gradient_eval = false`.) -/
+theorem panoc_on_raw_vtable_satisfies_inner_contract (B : Basic α) (hB : WF B) (P : Provided α)
+    (hP : P.Sound B) (C : BoxC α) (D : BoxD α) (hbox : IsBoxProblem B C D)
+    (W : Vec α → Vec α → Vec α → Vec α) (w : Vec α) (hw : w.length = B.m)
+    (hWl : ∀ x y Sig, x.length = B.n → y.length = B.m → Sig.length = B.m → (W x y Sig).length = B.m)
+    (dir : Direction Dd α) (d0 : Dd) (hD : DirSized B.n dir d0) (pr : Panoc.Params α) (hp : ParamsOK pr)
+    (nf K : Nat) (hF : FuelOK pr nf K) (hcrit : pr.stopCrit = .ApproxKKT)
+    (stop : InnerCall α → Nat → Bool) (hmono : ∀ c, StopMono (stop c))
+    (oot clock almStop : InnerCall α → Bool) (gV : Vec α) (gS iS : α) :
+    InnerContract (pbOf B C D) B.n B.m
+      (panocInner (vtProblemRaw (resolve B P) C W w) dir d0 pr stop oot clock almStop gV gS iS) :=
+  panoc_satisfies_inner_contract_grad (pbOf B C D) B.n B.m (vtProblemRaw (resolve B P) C W w) pr
+    (resolve_raw_meets_oracleContractGrad B hB P hP C D hbox W w hw pr.eagerGradientEval hWl)
+    dir d0 hD hp nf K hF hcrit stop hmono oot clock almStop gV gS iS
+
+/-- **C01 end to end over the raw slots (`m ≠ 0`), either mode, any workspace content**: ALM over the
+    PANOC loop model over the raw vtable `resolve B P` returns `Converged` only with the KKT
+    certificate of the returned pair. -/
+theorem alm_panoc_on_raw_vtable_certifies_kkt (nan inf : α) (acc0 : A) (accAdd : A → Panoc.Stats α → A)
+    (Pa : ALMParams α) (prob : C07.Problem α) (x y : Vec α) (Sig0 : Option (Vec α))
+    (B : Basic α) (hB : WF B) (P : Provided α) (hP : P.Sound B) (C : BoxC α) (D : BoxD α)
+    (hbox : IsBoxProblem B C D)
+    (W : Vec α → Vec α → Vec α → Vec α) (w : Vec α) (hw : w.length = B.m) (hpm : prob.m = B.m)
+    (hWl : ∀ x y Sig, x.length = B.n → y.length = B.m → Sig.length = B.m → (W x y Sig).length = B.m)
+    (dir : Direction Dd α) (d0 : Dd) (hD : DirSized B.n dir d0) (pr : Panoc.Params α) (hp : ParamsOK pr)
+    (nf K : Nat) (hF : FuelOK pr nf K) (hcrit : pr.stopCrit = .ApproxKKT)
+    (stop : InnerCall α → Nat → Bool) (hmono : ∀ c, StopMono (stop c))
+    (oot clock almStop : InnerCall α → Bool) (gV : Vec α) (gS iS : α)
+    (hm : prob.m ≠ 0)
+    (hC : ∀ b ∈ C, ∀ l u, b.1 = some l → b.2 = some u → l ≤ u)
+    (hDok : ∀ i, i < prob.m → BndOK (lbAt D i) (ubAt D i))
+    (hmin : 0 < Pa.min_penalty) (hmm : Pa.min_penalty ≤ Pa.max_penalty)
+    (hlen : SigmaLen prob.m Sig0) (hx : x.length = B.n) (hy : y.length = prob.m)
+    (hconv : (run nan inf acc0 accAdd Pa prob x y Sig0
+      (panocInner (vtProblemRaw (resolve B P) C W w) dir d0 pr stop oot clock almStop gV gS iS)).stats.status
+        = .Converged) :
+    KKTCert (pbOf B C D) prob.m Pa.tolerance Pa.dual_tolerance
+      (run nan inf acc0 accAdd Pa prob x y Sig0
+        (panocInner (vtProblemRaw (resolve B P) C W w) dir d0 pr stop oot clock almStop gV gS iS)).x
+      (run nan inf acc0 accAdd Pa prob x y Sig0
+        (panocInner (vtProblemRaw (resolve B P) C W w) dir d0 pr stop oot clock almStop gV gS iS)).y := by
+  have hI := panoc_on_raw_vtable_satisfies_inner_contract B hB P hP C D hbox W w hw hWl dir d0 hD pr hp
+    nf K hF hcrit stop hmono oot clock almStop gV gS iS
+  rw [← hpm] at hI
+  exact alm_converged_certifies_kkt nan inf acc0 accAdd Pa prob x y Sig0 _ (pbOf B C D) B.n hI hm hC hDok
+    hmin hmm hlen hx hy hconv
 
 end corollaries
 
@@ -651,6 +691,71 @@ theorem panoc_anderson_on_vtable_inner_contract (B : Basic α) (hB : WF B) (P : 
         gV gS iS) :=
   panoc_inner_contract_anderson _ _ _ _ (resolve_meets_oracleContract B hB P hP C D hbox w hw) c y' Sig'
     d0 pr hp nf K hF hcrit stop hmono oot clock almStop gV gS iS
+
+/-! #### … and over the raw slots, either mode, any workspace content
+     (`panoc_on_raw_vtable_satisfies_inner_contract`) -/
+
+/-- PANOC + `NoopDirection` over the raw slots of `resolve B P`, `eager_gradient_eval` arbitrary. -/
+theorem panoc_noop_on_raw_vtable_inner_contract (B : Basic α) (hB : WF B) (P : Provided α)
+    (hP : P.Sound B) (C : BoxC α) (D : BoxD α) (hbox : IsBoxProblem B C D)
+    (W : Vec α → Vec α → Vec α → Vec α) (w : Vec α) (hw : w.length = B.m) (pr : Panoc.Params α)
+    (hWl : ∀ x y Sig, x.length = B.n → y.length = B.m → Sig.length = B.m → (W x y Sig).length = B.m)
+    (d0 : Latch Noop.State)
+    (hp : ParamsOK pr) (nf K : Nat) (hF : FuelOK pr nf K) (hcrit : pr.stopCrit = .ApproxKKT)
+    (stop : InnerCall α → Nat → Bool) (hmono : ∀ c, StopMono (stop c))
+    (oot clock almStop : InnerCall α → Bool) (gV : Vec α) (gS iS : α) :
+    InnerContract (pbOf B C D) B.n B.m
+      (panocInner (vtProblemRaw (resolve B P) C W w) noopDir d0 pr stop oot clock almStop gV gS iS) :=
+  panoc_on_raw_vtable_satisfies_inner_contract B hB P hP C D hbox W w hw hWl noopDir d0
+    (dirSized_noop B.n d0) pr hp nf K hF hcrit stop hmono oot clock almStop gV gS iS
+
+/-- PANOC + `LBFGSDirection` (`memory ≥ 1`) over the raw slots, either mode. -/
+theorem panoc_lbfgs_on_raw_vtable_inner_contract (B : Basic α) (hB : WF B) (P : Provided α)
+    (hP : P.Sound B) (C : BoxC α) (D : BoxD α) (hbox : IsBoxProblem B C D)
+    (W : Vec α → Vec α → Vec α → Vec α) (w : Vec α) (hw : w.length = B.m) (pr : Panoc.Params α)
+    (hWl : ∀ x y Sig, x.length = B.n → y.length = B.m → Sig.length = B.m → (W x y Sig).length = B.m)
+    (c : LbfgsCfg α) (hm : 1 ≤ c.accel.memory) (d0 : Latch (Lbfgs.State α))
+    (hp : ParamsOK pr) (nf K : Nat) (hF : FuelOK pr nf K) (hcrit : pr.stopCrit = .ApproxKKT)
+    (stop : InnerCall α → Nat → Bool) (hmono : ∀ c, StopMono (stop c))
+    (oot clock almStop : InnerCall α → Bool) (gV : Vec α) (gS iS : α) :
+    InnerContract (pbOf B C D) B.n B.m
+      (panocInner (vtProblemRaw (resolve B P) C W w) (lbfgsDir c B.n) d0 pr stop oot clock almStop gV gS iS) :=
+  panoc_on_raw_vtable_satisfies_inner_contract B hB P hP C D hbox W w hw hWl (lbfgsDir c B.n) d0
+    (dirSized_lbfgs c hm B.n d0) pr hp nf K hF hcrit stop hmono oot clock almStop gV gS iS
+
+/-- PANOC + `StructuredLBFGSDirection` over the raw slots, either mode. -/
+theorem panoc_slbfgs_on_raw_vtable_inner_contract (B : Basic α) (hB : WF B) (P : Provided α)
+    (hP : P.Sound B) (C : BoxC α) (D : BoxD α) (hbox : IsBoxProblem B C D)
+    (W : Vec α → Vec α → Vec α → Vec α) (w : Vec α) (hw : w.length = B.m) (pr : Panoc.Params α)
+    (hWl : ∀ x y Sig, x.length = B.n → y.length = B.m → Sig.length = B.m → (W x y Sig).length = B.m)
+    (Ps : SProblem α) (hn : Ps.n = B.n) (c : SCfg α) (hm : 1 ≤ c.accel.memory)
+    (hok : slbfgsInitThrows c.hvf c.fd c.fullAug Ps.provInactive Ps.provHessL Ps.provHessPsi Ps.provBoxD
+      Ps.provGradGi = false)
+    (d0 : Latch (SLbfgs.State α))
+    (hp : ParamsOK pr) (nf K : Nat) (hF : FuelOK pr nf K) (hcrit : pr.stopCrit = .ApproxKKT)
+    (stop : InnerCall α → Nat → Bool) (hmono : ∀ c, StopMono (stop c))
+    (oot clock almStop : InnerCall α → Bool) (gV : Vec α) (gS iS : α) :
+    InnerContract (pbOf B C D) B.n B.m
+      (panocInner (vtProblemRaw (resolve B P) C W w) (slbfgsDir Ps c) d0 pr stop oot clock almStop gV gS iS) :=
+  panoc_on_raw_vtable_satisfies_inner_contract B hB P hP C D hbox W w hw hWl (slbfgsDir Ps c) d0
+    (by rw [← hn]; exact dirSized_slbfgs Ps c hm hok d0) pr hp nf K hF hcrit stop hmono oot clock almStop
+    gV gS iS
+
+/-- PANOC + `AndersonDirection` over the raw slots, either mode. -/
+theorem panoc_anderson_on_raw_vtable_inner_contract (B : Basic α) (hB : WF B) (P : Provided α)
+    (hP : P.Sound B) (C : BoxC α) (D : BoxD α) (hbox : IsBoxProblem B C D)
+    (W : Vec α → Vec α → Vec α → Vec α) (w : Vec α) (hw : w.length = B.m) (pr : Panoc.Params α)
+    (hWl : ∀ x y Sig, x.length = B.n → y.length = B.m → Sig.length = B.m → (W x y Sig).length = B.m)
+    (c : AndersonCfg α) (y' Sig' : Vec α) (d0 : Latch (Anderson.State α))
+    (hp : ParamsOK pr) (nf K : Nat) (hF : FuelOK pr nf K) (hcrit : pr.stopCrit = .ApproxKKT)
+    (stop : InnerCall α → Nat → Bool) (hmono : ∀ c, StopMono (stop c))
+    (oot clock almStop : InnerCall α → Bool) (gV : Vec α) (gS iS : α) :
+    InnerContract (pbOf B C D) B.n B.m
+      (panocInner (vtProblemRaw (resolve B P) C W w) (andersonDir c B.n y' Sig') d0 pr stop oot clock
+        almStop gV gS iS) :=
+  panoc_on_raw_vtable_satisfies_inner_contract B hB P hP C D hbox W w hw hWl
+    (andersonDir c B.n y' Sig') d0 (dirSized_anderson c B.n y' Sig' d0) pr hp nf K hF hcrit stop hmono oot
+    clock almStop gV gS iS
 
 end providers
 
@@ -885,6 +990,113 @@ example :
     (fun _ _ _ => [12345]) [0] rfl (fun _ _ _ _ _ _ => rfl)
     dirNoop () (dirSized_noop 1 ()) prEx prEx_ok rfl 1 9 prEx_fuel rfl (fun _ _ => false)
     (fun _ s t _ h => by cases h) (fun _ => false) (fun _ => false) (fun _ => false) [] 0 0
+
+/-! #### eager gradient evaluation over the RAW slots (`panoc_on_raw_vtable_satisfies_inner_contract`) -/
+
+/-- a problem class that supplies its own `eval_ψ_grad_ψ` (and `eval_ψ`): the closed form on
+    `x ∈ ℝ¹`, **junk of the wrong size elsewhere** — exactly what C04's `Sound` allows (it speaks
+    about well-sized arguments only) -/
+def exP2 : Provided ℚ :=
+  { psi := some (specPsi exB1),
+    psi_grad_psi := some (fun x y Sig =>
+      if x.length = 1 then specPsiGradPsi exB1 x y Sig else (12345, [7, 7, 7])) }
+
+theorem exP2_sound : exP2.Sound exB1 where
+  f_grad_f := fun u h => by cases h
+  f_g := fun u h => by cases h
+  grad_f_grad_g_prod := fun u h => by cases h
+  grad_L := fun u h => by cases h
+  psi := fun u h x y Sig _ => by cases h; rfl
+  grad_psi := fun u h => by cases h
+  psi_grad_psi := fun u h x y Sig ha => by
+    cases h
+    have hx : x.length = 1 := ha.1
+    simp [hx]
+
+/-- what that `eval_ψ_grad_ψ` leaves in `work_m`: `ŷ(x)` on `x ∈ ℝ¹`, junk of the wrong size
+    elsewhere -/
+def exW2 (x y Sig : Vec ℚ) : Vec ℚ :=
+  if x.length = 1 then yhatSpec exB1.proj_diff_g (exB1.g x) y Sig else [12345, 678]
+
+theorem exW2_len : ∀ x y Sig : Vec ℚ, x.length = exB1.n → y.length = exB1.m → Sig.length = exB1.m →
+    (exW2 x y Sig).length = exB1.m := by
+  intro x y Sig hx hy hS
+  have hx' : x.length = 1 := hx
+  simp only [exW2, hx', if_true]
+  rw [length_yhatSpec]; exact hy
+
+theorem exW2_yhat : ∀ x y Sig : Vec ℚ, x.length = exB1.n → y.length = exB1.m → Sig.length = exB1.m →
+    exW2 x y Sig = yhatSpec exB1.proj_diff_g (exB1.g x) y Sig := by
+  intro x y Sig hx hy hS
+  have hx' : x.length = 1 := hx
+  simp only [exW2, hx', if_true]
+
+/-- the raw slots of that vtable **violate the unrestricted `OracleLaw`** (at `x = []`: the gradient
+    slot returns a 3-vector, `eval_grad_L` a 1-vector) — `OracleContract` is not available for them,
+    `panoc_satisfies_inner_contract` does not apply … -/
+example : ¬ OracleLaw (vtProblemRaw (resolve exB1 exP2) exC1 exW2 [0] [2] [1]) := by
+  intro h
+  have h1 := congrArg List.length (h []).2
+  revert h1
+  decide +kernel
+
+/-- … **but the relativised contract holds, in eager mode**: `OracleContractOn … true` (workspace
+    `exW2`: `ŷ` on the domain) -/
+theorem exVt2_contractOn :
+    OracleContractOn (pbOf exB1 exC1 exD1) 1 1 true (vtProblemRaw (resolve exB1 exP2) exC1 exW2 [0]) :=
+  resolve_raw_meets_oracleContractOn exB1 exB1_wf exP2 exP2_sound exC1 exD1 exB1_box exW2 [0] rfl true
+    exW2_len (fun _ => exW2_yhat)
+
+/-- the same slots with **junk in the workspace everywhere** (`work_m = [12345]`, also on `ℝ¹`) violate
+    even the relativised full law `OracleLawOn 1` (at `x = [1/2]`: `ŷ = [3/2] ≠ [12345]`) … -/
+example : ¬ OracleLawOn 1 (vtProblemRaw (resolve exB1 exP2) exC1 (fun _ _ _ => [12345]) [0] [2] [1]) := by
+  intro h
+  have h1 := (h [1/2] rfl).1
+  revert h1
+  decide +kernel
+
+/-- … the gradient half alone holds (`OracleContractGrad`, eager), which is all PANOC needs -/
+theorem exVt2_contractGrad :
+    OracleContractGrad (pbOf exB1 exC1 exD1) 1 1 true
+      (vtProblemRaw (resolve exB1 exP2) exC1 (fun _ _ _ => [12345]) [0]) :=
+  resolve_raw_meets_oracleContractGrad exB1 exB1_wf exP2 exP2_sound exC1 exD1 exB1_box _ [0] rfl true
+    (fun _ _ _ _ _ _ => rfl)
+
+/-- the inner solver over the raw slots, junk in the workspace of `eval_ψ_grad_ψ` -/
+def exInnerRaw (pr : Panoc.Params ℚ) : InnerCall ℚ → InnerResult ℚ (Panoc.Stats ℚ) :=
+  panocInner (vtProblemRaw (resolve exB1 exP2) exC1 (fun _ _ _ => [12345]) [0]) dirNoop () pr
+    (fun _ _ => false) (fun _ => false) (fun _ => false) (fun _ => false) [] 0 0
+
+/-- **PANOC with `eager_gradient_eval = true` over the raw slots — a user-supplied `eval_ψ_grad_ψ`
+    that is junk off the domain and leaves junk in `work_m` — satisfies the inner contract; no
+    hypothesis left** (`prExE`; the same statement holds for `prEx`, lazy) -/
+theorem exVt2_inner_eager : InnerContract (pbOf exB1 exC1 exD1) 1 1 (exInnerRaw prExE) :=
+  panoc_on_raw_vtable_satisfies_inner_contract exB1 exB1_wf exP2 exP2_sound exC1 exD1 exB1_box _ [0] rfl
+    (fun _ _ _ _ _ _ => rfl)
+    dirNoop () (dirSized_noop 1 ()) prExE prExE_ok 1 9 prExE_fuel rfl (fun _ _ => false)
+    (fun _ s t _ h => by cases h) (fun _ => false) (fun _ => false) (fun _ => false) [] 0 0
+
+example : prExE.eagerGradientEval = true := rfl
+
+/-- not vacuous, and the junk is not returned: the eager run over the raw slots from `x = 1/2` is the
+    run of the guarded problem (`exInner prExE`) — `Converged` after two iterations near `x = 1`,
+    `y = 2`, with `y = ŷ(x̂)` re-evaluated by the exit block -/
+example : (exInnerRaw prExE exCall).status = .Converged ∧ (exInnerRaw prExE exCall).stats.iterations = 2 ∧
+    (exInnerRaw prExE exCall).eps = 36501/1024000 ∧ (exInnerRaw prExE exCall).x = [1011833/1024000] ∧
+    (exInnerRaw prExE exCall).y = [2035833/1024000] ∧ (exInnerRaw prExE exCall).errz = [-12167/1024000] := by
+  decide +kernel
+
+/-- the whole stack over the raw slots in eager mode, closed: ALM returns `Converged`, certified by
+    `alm_panoc_on_raw_vtable_certifies_kkt` with every hypothesis discharged -/
+example : KKTCert (pbOf exB1 exC1 exD1) 1 (1/10) (1/100)
+    (run (0 : ℚ) 0 (Panoc.stats0 (0:ℚ)) (fun _ s => s) almEx probEx [1/2] [2] none (exInnerRaw prExE)).x
+    (run (0 : ℚ) 0 (Panoc.stats0 (0:ℚ)) (fun _ s => s) almEx probEx [1/2] [2] none (exInnerRaw prExE)).y :=
+  alm_panoc_on_raw_vtable_certifies_kkt (0 : ℚ) 0 (Panoc.stats0 (0:ℚ)) (fun _ s => s) almEx probEx [1/2] [2]
+    none exB1 exB1_wf exP2 exP2_sound exC1 exD1 exB1_box _ [0] rfl rfl (fun _ _ _ _ _ _ => rfl)
+    dirNoop () (dirSized_noop 1 ()) prExE prExE_ok 1 9 prExE_fuel rfl (fun _ _ => false)
+    (fun _ s t _ h => by cases h) (fun _ => false) (fun _ => false) (fun _ => false) [] 0 0
+    (by decide) exC1_ok exD1_ok (by norm_num [almEx]) (by norm_num [almEx]) trivial rfl rfl
+    (by decide +kernel)
 
 end examples
 
